@@ -34,6 +34,7 @@ var c20Plants = []string{
 	"if %v then elseif not %v then end", "if %v.a then elseif %v.a then else end",
 	// 20 self assignment
 	"%v = %v", "%v.f = %v.f", "%v[1] = %v[1]", "%v, %v = %v, %v", "%v = (%v)", "%v.f = %v.g",
+	"va, vb = vc, vb", "M.x, va = vb, va", "va, vb = va, vc", "va, vb, vc = va, vb, vc", "va, vb, vc = vb, vb, vc", "va.f, vb = va.f, vc",
 	// 21 float equality
 	"if %v == 1.5 then end", "if 0.1 ~= %v then end", "if %v == 1 then end", "if %v < 1.5 then end", "if %v == 1e2 then end", "local e%d = %v == 0x.8",
 }
